@@ -59,6 +59,11 @@ CLAIMED = {
          "Request targets are written verbatim by a raw client (dot segments, single/double percent-encodings, encoded slashes and backslashes, //, ;params, authority tricks, absolute-form targets and query values naming a decoy listener) against endpoints with empty, '/', and nested base paths, preserve_path on/off, two route prefixes and both engines; the decoy must never be contacted, the raw backend's request line must stay under the base path when preserve_path is set, clean targets must arrive at exactly base+remaining (or remaining) with the query verbatim; generated relative/absolute health_check_url / model_url values are resolved by LoadFromConfig and must keep scheme/host and stay under the base path.",
          "Unclean targets may be answered by the mux without backend contact (not a violation); Host header is not asserted; one listed known finding (percent-encoded dot segments under preserve_path) is tolerated by exact signature.",
          "DESIGN.md §3 C16"),
+ "C03": ("exploration",
+         "rapid selector cases; rapid op-list histories against a reference status model through the full stack; concurrent writers/senders with sequence-stamped interval oracle",
+         "(a) generated endpoint lists through every selector from balancer.Factory: a routable member of the list or an error iff none is routable; (b) generated histories of scripted health results, backends going down/up, requests and real RunHealthCheck rounds over up to 4 endpoints, 3 balancers and 2 engines, compared step by step with a reference status model (which backend may be served, which status changes a request may cause, what a health check must conclude); (c) one status writer per endpoint and several request senders run concurrently, every action stamped with a global sequence number: an endpoint may serve a request only if it could have been routable at some instant of the request's span.",
+         "Routable statuses are the harness's own statement (healthy, busy, warming); after three failed health checks the health breaker may delay readmission (accepted); (c) covers the interleavings produced on this machine.",
+         "DESIGN.md §3 C03"),
  "C04": ("fault_enumeration",
          "enumeration of per-candidate outcome tuples with fault-injecting backends + rapid-generated histories; attempt-count / fingerprint / status / follow-up oracle",
          "Every assignment of {ok, refuse, reset-before-headers, circuit-open} (asserted) and {closed-without-answer, garbage} (explored) to up to 3 candidates is run on 3 balancers x 2 engines through the full stack; rapid adds bodies, methods and warm-up histories. With a working candidate and otherwise connection-level failures or skips the client must get that candidate's untouched answer (X-Olla-Endpoint naming it), every backend sees the identical request at most once, a failing request must have tried every candidate, failed endpoints are non-routable afterwards, receive none of five follow-up requests and are readmitted by a health check.",
